@@ -1,20 +1,42 @@
-import os, signal, time, faulthandler, threading
-from mpservice.multiprocessing import Process, wait
-faulthandler.dump_traceback_later(15, exit=True)
-def target():
-    time.sleep(30)
+"""C12 replay: kill the child with SIGKILL at different phases; wait/as_completed/exception/join must return and agree."""
+import os, signal, time, faulthandler, sys
+from mpservice.multiprocessing import Process, wait, as_completed
+faulthandler.dump_traceback_later(40, exit=True)      # a hang is the symptom of the pinned-tree defect
+
+
+def target(t):
+    time.sleep(t)
+    return 7
+
+
 if __name__ == '__main__':
-    p = Process(target=target)
-    p.start()
-    time.sleep(1)
-    os.kill(p.pid, signal.SIGKILL)
-    time.sleep(1)
-    print('exitcode', p.exitcode, 'done', p.done(), 'future done', p._future_.done())
-    try:
-        print('exception()', repr(p.exception(timeout=3)))
-    except BaseException as e:
-        print('exception() raised', repr(e))
-    print('wait...')
-    print(wait([p], timeout=3))
-    print('wait no timeout...')
-    print(wait([p]))
+    for sig in (signal.SIGKILL, signal.SIGSEGV):
+        p = Process(target=target, args=(30,))
+        p.start()
+        time.sleep(1)
+        os.kill(p.pid, sig)
+        done, not_done = wait([p], timeout=10)
+        assert done == {p} and not not_done, ('wait() did not complete', done, not_done)
+        assert list(as_completed([p], timeout=10)) == [p]
+        e = p.exception(timeout=10)
+        assert isinstance(e, OSError), e
+        try:
+            p.join()
+            raise SystemExit('join() did not raise')
+        except OSError as e2:
+            assert e2 is e or e2.args == e.args
+        try:
+            p.result()
+            raise SystemExit('result() did not raise')
+        except OSError:
+            pass
+        assert p.done() and p.exitcode == -sig
+    # deliberate terminate: completes, no error
+    p = Process(target=target, args=(30,))
+    p.start(); time.sleep(1); p.terminate()
+    done, _ = wait([p], timeout=10)
+    assert done == {p} and p.exception() is None and p.result() is None
+    # normal outcomes
+    p = Process(target=target, args=(0.1,)); p.start()
+    assert p.result() == 7 and p.exception() is None and p.done()
+    print('OK')
